@@ -372,11 +372,18 @@ class Block(Entity):
                 data = list(map(tuple, data))
             data = np.ascontiguousarray(data, dtype=col_dtype)
 
-        df = DataFrame.create_new(self.file, self, data_frames, name,
-                                  type_, shape, col_dtype, compression)
+        try:
+            df = DataFrame.create_new(self.file, self, data_frames, name,
+                                      type_, shape, col_dtype, compression)
 
-        if data is not None and shape > 0:
-            df.write_direct(data)
+            if data is not None and shape > 0:
+                df.write_direct(data)
+        except Exception:
+            # column types that cannot be stored: do not leave a half-built
+            # data frame behind
+            if name in data_frames:
+                del data_frames[name]
+            raise
         return df
 
     def find_sources(self, filtr=lambda _: True, limit=None):
